@@ -646,6 +646,198 @@ def gen_brentmax(ctx, cases, n):
 
 
 # ----------------------------------------------------------------------------------------
+# nelder_mead on concave quadratics
+
+
+@njit
+def _quad(x, A, c, k):
+    n = x.shape[0]
+    s = 0.0
+    for i in range(n):
+        t = 0.0
+        for j in range(n):
+            t += A[i, j] * (x[j] - c[j])
+        s += (x[i] - c[i]) * t
+    return k - s
+
+
+def quad_exact(A, c, k, x):
+    n = len(c)
+    d = [Fraction(x[i]) - Fraction(c[i]) for i in range(n)]
+    return Fraction(k) - sum(d[i] * sum(Fraction(A[i][j]) * d[j] for j in range(n)) for i in range(n))
+
+
+def box_qp_max(A, c, k, bounds):
+    """exact maximiser of the concave quadratic over the box, by enumerating active sets
+    (n <= 3): returns (value, point) as Fractions"""
+    import itertools
+    n = len(c)
+    best = None
+    for pattern in itertools.product((0, 1, 2), repeat=n):      # 0 free, 1 at lower, 2 at upper
+        x = [None] * n
+        for i, p in enumerate(pattern):
+            if p == 1:
+                x[i] = Fraction(bounds[i][0])
+            elif p == 2:
+                x[i] = Fraction(bounds[i][1])
+        free = [i for i in range(n) if pattern[i] == 0]
+        if free:
+            # stationarity in the free coordinates: sum_j S_ij (x_j - c_j) = 0, S = A + A^T
+            S = [[Fraction(A[i][j]) + Fraction(A[j][i]) for j in range(n)] for i in range(n)]
+            M = [[S[i][j] for j in free] + [-sum(S[i][j] * (x[j] - Fraction(c[j])) for j in range(n) if x[j] is not None)]
+                 for i in free]
+            m = len(free)
+            ok = True
+            for col in range(m):
+                piv = next((r for r in range(col, m) if M[r][col] != 0), None)
+                if piv is None:
+                    ok = False
+                    break
+                M[col], M[piv] = M[piv], M[col]
+                M[col] = [v / M[col][col] for v in M[col]]
+                for r in range(m):
+                    if r != col and M[r][col] != 0:
+                        M[r] = [a - M[r][col] * b for a, b in zip(M[r], M[col])]
+            if not ok:
+                continue
+            for t, i in enumerate(free):
+                x[i] = M[t][m] + Fraction(c[i])
+        if all(Fraction(bounds[i][0]) <= x[i] <= Fraction(bounds[i][1]) for i in range(n)):
+            v = quad_exact(A, c, k, x)
+            if best is None or v > best[0]:
+                best = (v, x)
+    return best
+
+
+def gen_neldermead(ctx, cases, n_cases):
+    from quantecon.optimize.nelder_mead import nelder_mead
+    rng = ctx.rng
+    K105, ZD = 1 + 0.05, 0.00025
+    fixed = [
+        # (A, c, k, x0, bounds, tol_f, tol_x, max_iter): the two reported findings, replayed on every run
+        ([[3.0625]], [2.25], -0.5, [0.625], None, 1e-10, 1e-10, 1000),
+        ([[7.8125, -1.0], [1.0, 7.3125]], [-2.375, -3.375], 0.0, [0.71875, -5.125],
+         [[0.59375, 6.59375], [-9.125, 0.625]], 1e-10, 1e-8, 1000),
+    ]
+    for it in range(-len(fixed), n_cases):
+        n = rng.choice([1, 2, 2, 3])
+        # A = L L^T + diag, small dyadic entries: symmetric positive definite
+        L = [[float(dyad(rng, -2, 2, 2)) if j <= i else 0.0 for j in range(n)] for i in range(n)]
+        A = [[sum(L[i][t] * L[j][t] for t in range(n)) + (float(dyad(rng, 1, 8, 2)) if i == j else 0.0)
+              for j in range(n)] for i in range(n)]
+        if rng.random() < 0.3:
+            # not symmetric (same quadratic form as its symmetric part)
+            for i in range(n):
+                for j in range(i + 1, n):
+                    t = float(dyad(rng, -1, 1, 2))
+                    A[i][j] += t
+                    A[j][i] -= t
+        c = [float(dyad(rng, -4, 4, 3)) for _ in range(n)]
+        k = float(dyad(rng, -3, 3, 2))
+        kind = rng.choice(["free", "free", "box-inactive", "box-active", "box-active", "start-on-bound", "start-outside", "tight"])
+        x0 = [ci + float(dyad(rng, -3, 3, 3)) for ci in c]
+        if rng.random() < 0.2:
+            x0[rng.randrange(n)] = 0.0          # the zdelt branch of the initial simplex
+        bounds = None
+        if kind == "box-inactive":
+            bounds = [[min(ci, xi) - 4.0, max(ci, xi) + 4.0] for ci, xi in zip(c, x0)]
+        elif kind == "box-active":
+            bounds = []
+            for ci, xi in zip(c, x0):
+                if rng.random() < 0.6:
+                    lo = ci + float(dyad(rng, 1, 16, 3)) / 4      # optimum cut off from below
+                    bounds.append([lo, lo + 6.0])
+                else:
+                    bounds.append([min(ci, xi) - 4.0, max(ci, xi) + 4.0])
+            x0 = [min(max(xi, b[0] + 0.125), b[1] - 0.5) for xi, b in zip(x0, bounds)]
+        elif kind == "start-on-bound":
+            bounds = [[xi, max(xi, ci) + 3.0] for ci, xi in zip(c, x0)]
+        elif kind == "start-outside":
+            bounds = [[xi + 0.5, xi + 5.0] for xi in x0]         # every initial vertex infeasible
+        elif kind == "tight":
+            bounds = [[xi - 0.001, xi + abs(xi) * 0.02 + 0.0001] for xi in x0]
+        tol_f = rng.choice([1e-10, 1e-10, 1e-8, 1e-6, 1e-3])
+        tol_x = rng.choice([1e-10, 1e-10, 1e-8, 1e-4])
+        max_iter = rng.choice([1000, 1000, 1000, 200, 30, 5, 1, 0])
+        if it < 0:
+            A, c, k, x0, bounds, tol_f, tol_x, max_iter = fixed[it + len(fixed)]
+            n, kind = len(c), "fixed"
+        An, cn = np.array(A, dtype=np.float64).reshape(n, n), np.array(c, dtype=np.float64)
+        x0n = np.array(x0, dtype=np.float64)
+        bn = np.array(bounds, dtype=np.float64) if bounds is not None else np.array([[], []]).T
+        res = nelder_mead(_quad, x0n, bounds=bn, args=(An, cn, k), tol_f=tol_f, tol_x=tol_x, max_iter=max_iter)
+        x, fun, ok, nit, simplex = [float(t) for t in res.x], float(res.fun), bool(res.success), int(res.nit), res.final_simplex.tolist()
+        ctx.count("nm:kind:" + kind)
+        ctx.count("nm:n=%d" % n)
+        ctx.count("nm:success" if ok else "nm:max_iter-hit")
+        rep = {"op": "nelder_mead", "A": A, "c": c, "k": k, "x0": x0, "bounds": bounds, "tol_f": tol_f, "tol_x": tol_x,
+               "max_iter": max_iter, "x": x, "fun": fun, "success": ok, "nit": nit}
+        # ---- spec oracle (exact, model-independent) ----
+        init = [list(x0)]
+        for i in range(n):
+            v = list(x0)
+            v[i] = v[i] * K105 if v[i] != 0 else ZD
+            init.append(v)
+
+        def feas(v):
+            return bounds is None or all(b[0] <= vi <= b[1] for vi, b in zip(v, bounds))
+        init_feas = [v for v in init if feas(v)]
+        if not any(x == v for v in simplex):
+            ctx.spec_fail("nm_vertex", "nelder_mead: x is not a vertex of the final simplex", rep)
+        if feas(x):
+            fchk = float(_quad.py_func(np.array(x), An, cn, k))
+            if fx(fchk) != fx(fun) and not (fchk == 0 and fun == 0):
+                ctx.spec_fail("nm_fun", "nelder_mead: fun=%r is not f(x)=%r" % (fun, fchk), rep)
+        elif fun != -math.inf:
+            ctx.spec_fail("nm_fun", "nelder_mead: x outside the bounds but fun=%r" % fun, rep)
+        if init_feas:
+            ctx.count("nm:some-initial-vertex-feasible")
+            if not feas(x):
+                ctx.spec_fail("nm_bounds", "nelder_mead: returned x=%r violates the bounds although an initial vertex "
+                              "is feasible" % x, rep)
+            else:
+                best0 = max(quad_exact(A, c, k, v) for v in init_feas)
+                # f is evaluated in doubles: allow the rounding of one evaluation
+                if quad_exact(A, c, k, x) < best0 - 64 * Fraction(EPS) * (abs(best0) + 1):
+                    ctx.spec_fail("nm_monotone", "nelder_mead: f(x)=%r is below the best initial vertex %r" % (
+                        float(quad_exact(A, c, k, x)), float(best0)), rep)
+        else:
+            ctx.count("nm:all-initial-vertices-infeasible")
+        if nit > max_iter:
+            ctx.spec_fail("nm_nit", "nelder_mead: nit=%d > max_iter=%d" % (nit, max_iter), rep)
+        if ok and init_feas and tol_f <= 1e-8 and tol_x <= 1e-8:
+            box = bounds if bounds is not None else [[-1e6, 1e6]] * n
+            vstar, xstar = box_qp_max(A, c, k, box)
+            gap = vstar - quad_exact(A, c, k, x)
+            if gap <= Fraction(1, 10 ** 6) * (1 + abs(vstar)):
+                ctx.count("nm:success-at-maximiser")
+            elif bounds is not None and (
+                    any(xs in (Fraction(b[0]), Fraction(b[1])) for xs, b in zip(xstar, bounds)) or
+                    any(min(xi - b[0], b[1] - xi) <= 1e-2 * (b[1] - b[0]) for xi, b in zip(x, bounds))):
+                # a bound is active at the maximiser or at the returned point: the +inf penalty lets the simplex
+                # collapse (LV_ratio < tol_x) against the bound, away from the constrained maximiser
+                ctx.count("nm:success-away-from-maximiser:" + kind)
+                ctx.spec_fail("nm_success_not_maximiser_bounded", "nelder_mead: success=True with active bounds but f(x) is "
+                              "%.3e below the constrained maximum" % float(gap), rep)
+            elif max(max(abs(p - q) for p, q in zip(v, x)) for v in simplex) > 1e-4:
+                # wide final simplex: the run ended on `term_f` (equal function values) alone
+                ctx.count("nm:success-away-from-maximiser:" + kind)
+                ctx.spec_fail("nm_success_f_tie", "nelder_mead: success=True on equal f-values at a wide simplex, f(x) is "
+                              "%.3e below the maximum" % float(gap), rep)
+            else:
+                ctx.count("nm:success-away-from-maximiser:" + kind)
+                ctx.spec_fail("nm_success_not_maximiser", "nelder_mead: success=True on a concave quadratic (no active "
+                              "bound at the maximiser) but f(x) is %.3e below the maximum" % float(gap), rep)
+        line = "C17 neldermead sc=float A=%s c=%s k=%s x0=%s bounds=%s tolf=%s tolx=%s maxiter=%d k105=%s zdelt=%s pinf=%s" % (
+            ";".join(",".join(fx(v) for v in row) for row in A), ",".join(fx(v) for v in c), fx(k),
+            ",".join(fx(v) for v in x0), "-" if bounds is None else ";".join(",".join(fx(v) for v in b) for b in bounds),
+            fx(tol_f), fx(tol_x), max_iter, fx(K105), fx(ZD), fx(math.inf))
+        out = "%s %s %d %d %s" % (",".join(fx(v) for v in x), fx(fun), 1 if ok else 0, nit,
+                                  ";".join(",".join(fx(v) for v in row) for row in simplex))
+        cases.append(Case(line, out, nontrivial=(nit >= 2), tag="neldermead"))
+
+
+# ----------------------------------------------------------------------------------------
 # transcendental functions: spec only (outside the model)
 
 
@@ -676,10 +868,15 @@ def run(ctx):
     ctx.rule = ("random members of function families with exactly known roots/maximisers (factored cubics, x^k-c, "
                 "rational, odd quintic, steep, same-sign, constant), scaled by 2^k (k in -30..30), roots at end points, "
                 "reversed brackets, xtol/tol 1e-12..1e-2, maxiter 1..300 and invalid, disp both ways; a case is "
-                "non-trivial when the routine ran at least 2 iterations; distinct by request line")
+                "non-trivial when the routine ran at least 2 iterations; distinct by request line. brent_max: unimodal "
+                "families (quadratic, quartic, Cauchy, asymmetric rational, boundary maxima, monotone, flat). nelder_mead: "
+                "concave quadratics k-(x-c)'A(x-c), n=1..3, A SPD dyadic (30% non-symmetric), free / inactive box / "
+                "active box / start on a bound / start outside / tight box, max_iter 0..1000, plus 2 fixed probes of the "
+                "reported findings")
     gen_brackets(ctx, cases, ctx.n(250, 3000))
     gen_open(ctx, cases, ctx.n(200, 2500))
     gen_brentmax(ctx, cases, ctx.n(300, 4000))
+    gen_neldermead(ctx, cases, ctx.n(300, 3000))
     gen_transcendental(ctx, ctx.n(20, 200))
     ctx.assumptions.append("doubles vs exact arithmetic: theorems are over ordered fields; the Float instance of the "
                            "same definitions is compared bit for bit with the jitted kernels")
